@@ -18,7 +18,7 @@ def play(spec):
     for bs in reg_bases:
         regs.append(R(tuple(regs[b] for b in bs)))
     models = [Model() for _ in regs]
-    vals = [Eq(0), Eq(0), Eq(1), object()]
+    vals = [Eq(0), Eq(0), Eq(1), object(), regcommon.Falsy(5)]
     pool = ifs + [None]
     bad = []
     nq = 0
@@ -85,7 +85,7 @@ def random_spec(rnd):
         if rnd.random() < 0.65:
             ops.append(('sub', rnd.randrange(nreg), k[0], k[1], rnd.randrange(4)))
         else:
-            ops.append(('unsub', rnd.randrange(nreg), k[0], k[1], rnd.choice([None, 0, 1, 2, 3])))
+            ops.append(('unsub', rnd.randrange(nreg), k[0], k[1], rnd.choice([None, 0, 1, 2, 3, 4])))
     return (shape, rnd.choice('AV'), tuple(reg_bases), tuple(ops))
 
 
